@@ -535,6 +535,21 @@ def run(ctx):
         ctx.floor("SCAN", "index lookups examined", n_scan, 2)
     else:
         ctx.fail_closed("PROV", "SqPackIndex::find_entry not found")
+    # EXISTS: "only stored paths": every value `exists` returns is either the constant false or is_some() of the entry
+    # lookup for the same path; no path returns a constant true
+    eb_ = prog.body("gamedata::GameData::exists")
+    if not eb_:
+        ctx.fail_closed("SCAN", "gamedata::GameData::exists not found")
+    else:
+        rets = [p_.env.local(0) for p_ in Explorer(eb_).explore() if p_.end == "return"]
+        bad_r = []
+        for r_ in rets:
+            if is_const(r_):
+                if r_[1] != 0:
+                    bad_r.append(show(r_))
+            elif not any(isinstance(x, tuple) and x and x[0] == "call" and str(x[1]).split("::")[-1] in ("find_entry", "find_offset", "exists") for x in walk(r_)):
+                bad_r.append(show(r_)[:80])
+        ctx.ob("SCAN", "exists|true-only-from-lookup", bool(rets) and not bad_r, f"GameData::exists returns {[show(r_)[:60] for r_ in rets]}; a true answer must come from the entry lookup of the path (offending: {bad_r})", eb_.file, eb_.line)
     gb = prog.body("gamedata::GameData::get_index_filenames")
     if gb:
         calls = [(t.get("res") or "") for _bi, t in gb.calls()]
